@@ -147,6 +147,38 @@ def run(ctx):
     reach = mirutil.reachable_fns(p, entries, g)
     fns = [f for f in reach if f in p.bodies and p.bodies[f].crate == "L"
            and not (f.startswith("<") and ("core::fmt::" in f or "core::hash::" in f))]
+    # every call returns: no function of the core can reach itself (a recursion guarded only by data - e.g. "clamp and retry" -
+    # is an unbounded stack or an endless loop for the value that never satisfies the guard)
+    local = {f for f in reach if f in p.bodies and p.bodies[f].crate == "L"}
+    cyc = []
+    color = {}
+
+    def dfs(f0):
+        stack = [(f0, iter(sorted(c for c in g.get(f0, ()) if c in local)))]
+        color[f0] = 1
+        path = [f0]
+        while stack:
+            f_, it_ = stack[-1]
+            adv = False
+            for c in it_:
+                if color.get(c) == 1:
+                    cyc.append(path[path.index(c):] + [c])
+                elif c not in color:
+                    color[c] = 1
+                    path.append(c)
+                    stack.append((c, iter(sorted(x for x in g.get(c, ()) if x in local))))
+                    adv = True
+                    break
+            if not adv:
+                color[f_] = 2
+                stack.pop()
+                path.pop()
+    for f0 in sorted(local):
+        if f0 not in color:
+            dfs(f0)
+    chk.ob("no-recursion", not cyc, "no function reachable from the entry points can call itself, directly or through others",
+           "", "cycles: %s" % [" -> ".join(x.rsplit("::", 2)[-2] + "::" + x.rsplit("::", 1)[-1] for x in c_) for c_ in cyc[:3]]
+           if cyc else "%d functions, call graph acyclic" % len(local), "cycle search on the resolved call graph")
     sites = panics.enumerate_sites(p, fns)
     chk.floor("panic-capable sites reachable from the entry points", len(sites), 15)
     hit_fns = {k[0] for k in I.block_hits}
